@@ -1,5 +1,6 @@
 import DFV.JsonField
 import DFV.Model.C08
+import DFV.Model.C08Dict
 namespace DFV.Drv
 open Lean DFV DFV.C08
 
@@ -94,6 +95,11 @@ def freshOfJson (j : Json) : R FreshOp := do
   | "same" => pure .same
   | "reduce" => pure (.reduce (← nats j "axes"))
   | "rfft" => pure .rfft
+  | "spectrum" => pure .spectrum
+  | "irfft" =>
+    match (← fld j "last") with
+    | .null => pure (.irfft none)
+    | l => pure (.irfft (some (← natOfJson l)))
   | s => throw s!"unknown fresh op {s}"
 
 partial def progOfJson (j : Json) : R Prog := do
@@ -131,21 +137,38 @@ def stmtOfJson (j : Json) : R Stmt := do
   | "poke" => pure (.poke (← natOfJson (← fld j "i")) (← natOfJson (← fld j "pos")) (← boolOfJson (← fld j "v")))
   | s => throw s!"unknown statement {s}"
 
-/-- all variables of a session: object, buffer address, mask -/
-def sessToJson (st : Sess) : Json :=
-  Json.arr ((List.range st.vars.length).map fun i =>
-    Json.mkObj [("obj", Json.num (JsonNumber.fromNat (st.objOf i))),
-                ("addr", Json.num (JsonNumber.fromNat (st.addrOf i))),
-                ("mask", maskToJson (st.mask i))]).toArray
+/-- all variables of a session: object, buffer address, mask, mesh object and its cells per axis -/
+def sessToJson (sm : SessM) : Json :=
+  Json.arr ((List.range sm.base.vars.length).map fun i =>
+    Json.mkObj [("obj", Json.num (JsonNumber.fromNat (sm.base.objOf i))),
+                ("addr", Json.num (JsonNumber.fromNat (sm.base.addrOf i))),
+                ("mask", maskToJson (sm.base.mask i)),
+                ("mesh", Json.num (JsonNumber.fromNat (sm.meshObj i))),
+                ("meshn", natsJ (sm.meshNOf i))]).toArray
 
 /-- run a history statement by statement; the state after every statement (stops at the first
 rejected statement, reported as `{"err": …}` in its place) -/
-def runTrace (st : Sess) : List Stmt → List Json
+def runTrace (st : SessM) : List Stmt → List Json
   | [] => []
   | s :: rest =>
     match st.step s with
     | .error e => [errJ e]
     | .ok st' => sessToJson st' :: runTrace st' rest
+
+def dvalOfJson (j : Json) : R DVal := do
+  match ← strOfJson (← fld j "kind") with
+  | "const" => pure (.const (← ratOfJson (← fld j "v")))
+  | "arr" => pure (.arr (← ratArrOfJson j))
+  | "func" => pure (.func (← funOfJson (← fld j "fun")))
+  | "bad" => pure .bad
+  | s => throw s!"unknown dict value {s}"
+
+def ddefOfJson (j : Json) : R DDef := do
+  match ← strOfJson (← fld j "kind") with
+  | "none" => pure .none
+  | "const" => pure (.const (← ratOfJson (← fld j "v")))
+  | "func" => pure (.func (← funOfJson (← fld j "fun")))
+  | s => throw s!"unknown dict default {s}"
 
 end C08J
 
@@ -176,11 +199,28 @@ def c08 (op : String) (j : Json) : Option (R Json) :=
   | "hist" => some do
       let leaves ← listOf maskOfJson (← fld j "leaves")
       let stmts ← listOf stmtOfJson (← fld j "stmts")
-      pure (Json.mkObj [("ok", Json.arr (runTrace (Sess.init leaves) stmts).toArray)])
+      pure (Json.mkObj [("ok", Json.arr (runTrace (SessM.init leaves) stmts).toArray)])
   | "setvalid" => some do
       let f ← fldOfJson (← fld j "field")
       let s ← vspecOfJson (← fld j "spec")
       pure (resJ fldToJson (setValid f s))
+  | "apply" => some do
+      -- one mapping operation on one mask, the array only (large arrays: no index-level reading, no store)
+      let m ← maskOfJson (← fld j "mask")
+      let op ← mapOpOfJson (← fld j "mop")
+      if op.ok m.shape then pure (Json.mkObj [("ok", maskToJson (own (op.apply m false)))])
+      else pure (errJ Err.value)
+  | "resamplefast" => some do
+      -- `resample` through the closed form of the source cell (= MapOp.resample, Props resample_fast_is_resample)
+      let m ← maskOfJson (← fld j "mask")
+      let n ← nats j "n"
+      if (MapOp.resample n).ok m.shape then pure (Json.mkObj [("ok", maskToJson (own (resampleFast m n)))])
+      else pure (errJ Err.value)
+  | "setdict" => some do
+      let f ← fldOfJson (← fld j "field")
+      let d ← ddefOfJson (← fld j "default")
+      let val ← listOf (fun e => do pure (← strOfJson (← fld e "name"), ← dvalOfJson (← fld e "val"))) (← fld j "entries")
+      pure (resJ fldToJson (setValidDict f d val))
   | _ => none
 
 end DFV.Drv
